@@ -6,7 +6,7 @@ import itertools
 import json
 import random
 
-from .. import env, impl, report, tlc, wire
+from .. import env, impl, report, tlc, usage, wire
 from ..writer import cfg_text
 
 PT_OF = {"triple": 1, "quad": 2, "graph": 3}
@@ -42,6 +42,10 @@ def call_parser(integ, parser, strict, data, preread=False):
     for sink in mod.parse_jelly_grouped(inp, logical_type_strict=strict):
         out.append(sorted(repr(x) for x in (sink.quads() if hasattr(sink, "quads") else sink)))
     return out
+
+
+SOURCES = ["bytesio", "second-member", "bytesio-at-offset", "file-at-offset", "duck-typed-seekable", "pipe-1-1-1", "buffered-over-pipe", "socket-makefile",
+           "spooled-temporary-file", "pipe-7-byte-reads", "socket-makefile-unbuffered"]
 
 
 def names(rnd):
@@ -99,6 +103,8 @@ def main(tier: str) -> int:
     presets = [(8, 0, 0), (8, 1, 1), (4096, 4096, 4096), (255, 256, 4095)] + ([] if quick else [(4000, 150, 32), (9, 4096, 0), (128, 0, 32)])
     name_pool = names(rnd) if not quick else names(rnd)[:9]
     written = 0
+    prev_data = stream_bytes({"pt": 2, "mn": 77, "mp": 7, "md": 3, "lt": 2, "ver": 1}, name="the first member")
+    sources_used: dict = {}
     st = (("iri", "http://e/s"), ("iri", "http://e/p"), ("lit", "v", "", ""))
     for sclass, lt, delimited, nsdecl in itertools.product(("triple", "quad", "graph"), (0, 1, 2, 3, 4, 13, 14, 114), (True, False), (True, False)):
         for preset in presets:
@@ -136,11 +142,26 @@ def main(tier: str) -> int:
                     diff = {k: (want[k], opt.get(k)) for k in want if opt.get(k) != want[k]}
                     run.violation(dict(key, clause="header-written-differs", fields=sorted(diff)), f"configured vs written: {diff}", rp)
                     continue
+                # what the reader is told must not depend on where the bytes come from: the sources of the usage lattice in turn, and the
+                # stream as the SECOND member of a file whose first member is the previous stream (another header), reached with seek()
+                src_kind = SOURCES[written % len(SOURCES)]
+                cleanup = None
                 try:
-                    po, _ = get_options_and_frames(io.BytesIO(data))
+                    if src_kind == "second-member":
+                        src = io.BytesIO(prev_data + data)
+                        src.seek(len(prev_data))
+                    else:
+                        src, cleanup = usage.open_source(src_kind, data, env.workdir())
+                    po, _ = get_options_and_frames(src)
                 except Exception as ex:  # noqa: BLE001
-                    run.violation(dict(key, clause="reader-rejects-own-header"), f"{type(ex).__name__}: {ex}", rp)
+                    run.violation(dict(key, clause="reader-rejects-own-header", source=src_kind), f"{type(ex).__name__}: {ex}", rp)
                     continue
+                finally:
+                    if cleanup:
+                        cleanup()
+                sources_used[src_kind] = sources_used.get(src_kind, 0) + 1
+                if delimited:
+                    prev_data = data
                 told = {"name": po.params.stream_name, "pt": po.stream_types.physical_type, "lt": po.stream_types.logical_type,
                         "gen": po.params.generalized_statements, "star": po.params.rdf_star, "mn": po.lookup_preset.max_names,
                         "mp": po.lookup_preset.max_prefixes, "md": po.lookup_preset.max_datatypes, "ver": po.params.version,
@@ -148,7 +169,7 @@ def main(tier: str) -> int:
                 exp = dict({k: v for k, v in want.items() if k != "r"}, nsdecl=nsdecl, delimited=delimited)
                 if told != exp:
                     diff = {k: (exp[k], told.get(k)) for k in exp if told.get(k) != exp[k]}
-                    run.violation(dict(key, clause="reader-told-differently", fields=sorted(diff)), f"written vs what the reader is told: {diff}", rp)
+                    run.violation(dict(key, clause="reader-told-differently", fields=sorted(diff), source=src_kind), f"written vs what the reader is told (bytes from {src_kind}): {diff}", rp)
     # defaults: no options at all, and the documented LookupPreset.small()
     from pyjelly.options import LookupPreset  # noqa: PLC0415
     from pyjelly.serialize.streams import SerializerOptions  # noqa: PLC0415
@@ -187,9 +208,9 @@ def main(tier: str) -> int:
         samples.append({"write_configurations": written})
     return run.finish({
         "states": r.distinct, "transitions": r.generated, "traces_validated_against_impl": evaluated + written, "samples": samples, "exhaustive": True,
-        "read_lattice_points": len(points), "read_evaluations": evaluated, "write_configurations": written,
+        "read_lattice_points": len(points), "read_evaluations": evaluated, "write_configurations": written, "header_read_from_sources": sources_used,
         "explanation": "spec/PyHeader.tla states the reader contract for headers (type pairs, sizes, version, strict gates) and TLC enumerates the lattice "
                        "pt x lt x sizes x version x parser x strict with the expected outcome of each point; every point is turned into bytes by /verif's codec and handed to "
                        "both integrations' flat and grouped parsers; the writer lattice (class x logical type x delimited x nsdecl x presets x flags x names) is replayed and the "
-                       "header read by /verif's codec and by get_options_and_frames is compared with the configuration",
+                       "header read by /verif's codec and by get_options_and_frames (from eleven kinds of byte source in turn, among them the second member of a two-stream file reached with seek) is compared with the configuration",
     })
